@@ -19,7 +19,7 @@ RULE = ("one evaluation = one call of a cplx function on one (shape combination,
 ASSUMPTIONS = ["'aliasing output buffer' is read as the documented contract: passing an operand object itself as out=",
                "sigmoid claimed for |Re z| <= 700 (exp overflows beyond in any float64 arithmetic)"]
 G = [a + 1j * b for a in (-2, -1, 0, 1, 3) for b in (-2, -1, 0, 1, 3)]
-GROUPS = ["scalar-pairs", "vectors", "matrices", "higher-rank", "einsum", "errors", "sigmoid-and-constants", "noninteger"]
+GROUPS = ["scalar-pairs", "vectors", "matrices", "higher-rank", "einsum", "errors", "sigmoid-and-constants", "noninteger", "broadcast"]
 
 
 def bound(tier):
@@ -265,6 +265,25 @@ def run_group(acc, group, tier, only=None):
             A = fill((2, 3), off)
             eA = enc(A)
             c.chk("scalar_mult", f"M*I:{off}", lambda: X.scalar_mult(eA, X.I), 1j * A)
+    elif group == "broadcast":
+        # every pair of shapes that numpy/torch broadcasting accepts (ranks <= 3, extents in {1,2,3})
+        shapes = [()] + [(a,) for a in (1, 2, 3)] + [(a, b) for a in (1, 2, 3) for b in (1, 2, 3)] + [(2, 1, 3), (1, 2, 1), (2, 3, 1), (1, 1, 2), (2, 2, 3)]
+        for off in offs[:2]:
+            for sa in shapes:
+                for sb in shapes:
+                    try:
+                        tgt = np.broadcast_shapes(sa, sb)
+                    except ValueError:
+                        continue
+                    a, b = fill(sa, off), fill(sb, off + 3)
+                    ea, eb = enc(a), enc(b)
+                    t = f"{sa}x{sb}:{off}"
+                    c.chk("scalar_mult", "bc-mult:" + t, lambda: X.scalar_mult(ea, eb), a * b)
+                    c.chk("elementwise_mult", "bc-emult:" + t, lambda: X.elementwise_mult(ea, eb), a * b)
+                    o = torch.full((2,) + tuple(tgt), 7.0, dtype=torch.double)
+                    c.chk("scalar_mult", "bc-mult-out:" + t, lambda: X.scalar_mult(ea, eb, out=o), a * b)
+                    if not np.any(b == 0) and sb == ():
+                        c.chk("scalar_divide", "bc-sdiv:" + t, lambda: X.scalar_divide(ea, eb), a / b, exact=False)
     elif group == "noninteger":
         for off in offs:
             for s in shapes2:
